@@ -12,13 +12,15 @@ void harness(void) {
   HAVOC_BUFS;
   ND_SV(input);
 #endif
+#ifdef IPV6_FROM_ADDRESS
+  /* the input IS the Standard's serialization of a0: the real parser must accept it and store exactly '[' input ']' (the real
+   * serializer equals the Standard's for every address: C10.serializers.ipv6.exact), i.e. it recovered a0 */
+  _Bool ok = 1; const char *ref = text; size_t rn = input.n;
+#else
   uint16_t ra[8];
   _Bool ok = ref_ipv6_parse(input, ra);
-#ifdef IPV6_FROM_ADDRESS
-  __CPROVER_assert(ok, "lemma: the Standard's parser accepts the Standard's serialization");
-  __CPROVER_assert(g_k2 >= 8 || ra[g_k2] == a0[g_k2], "lemma: the Standard's parser inverts the Standard's serializer");
-#endif
   char ref[48]; size_t rn = ref_ipv6_serialize(ra, ref);
+#endif
 #ifndef ONLY_AGG
   struct url u = G_url_default;
   _Bool r1 = url_parse_ipv6(&u, input);
